@@ -84,7 +84,15 @@ async fn scenario(sim: Arc<Sim>, unit: Value, header: String, dur_ms: u64) -> Ob
     let user_layer = unit["user_layer"].as_bool().unwrap();
     let via_peer = unit["via_peer"].as_bool().unwrap();
     let caller_spec = NodeSpec::new(1).config(cfg(opt(&unit["in_caller"]), opt(&unit["out_caller"])));
-    let callee_spec = NodeSpec::new(2).config(cfg(opt(&unit["in_callee"]), opt(&unit["out_callee"])));
+    let stream_busy = unit["stream_busy"].as_bool().unwrap_or(false);
+    let mut callee_cfg = cfg(opt(&unit["in_callee"]), opt(&unit["out_callee"]));
+    if stream_busy {
+        // the callee grants one request stream at a time
+        let mut q = anemo::QuicConfig::default();
+        q.max_concurrent_bidi_streams = Some(1);
+        callee_cfg.quic = Some(q);
+    }
+    let callee_spec = NodeSpec::new(2).config(callee_cfg);
     let a = if user_layer {
         sim.start_with_user_layer(&caller_spec).unwrap()
     } else {
@@ -119,6 +127,15 @@ async fn scenario(sim: Arc<Sim>, unit: Value, header: String, dur_ms: u64) -> Ob
         spec = spec.header("never", "1");
     } else if dur_ms > 0 {
         spec = spec.header("sleep-ms", format!("{dur_ms}"));
+    }
+    if stream_busy {
+        // an earlier call of the same caller occupies the only stream for the whole run; it carries
+        // no deadline of its own (and is exempt from the caller's default through a huge header)
+        let (a2, to) = (a.clone(), b.peer_id());
+        tokio::spawn(async move {
+            let _ = a2.rpc(to, Sim::request("blocker").with_header("never", "1")).await;
+        });
+        tokio::time::sleep(ms(50)).await;
     }
     let t0 = sim.now_us();
     let fut = async {
@@ -190,10 +207,14 @@ fn judge(unit: &Value, header: &str, dur_ms: u64, o: &Obs) -> Judged {
             }
         }
     };
+    let stream_busy = unit["stream_busy"].as_bool().unwrap_or(false);
+    // with the callee's only stream taken by an earlier call the request cannot be sent at all:
+    // the caller's deadline is all that can end the call
+    let served = if stream_busy { None } else { served };
     let resp_arrival = served.map(|(t, _)| 2 * l + t);
     let t_end = o.t_end_us as u128 * 1000;
     let ctx = format!(
-        "[in_callee={:?} out_caller={:?} in_caller={:?} out_callee={:?} header={header:?} handler={} lat={lat_ms}ms user_layer={} via_peer={}]",
+        "[in_callee={:?} out_caller={:?} in_caller={:?} out_callee={:?} header={header:?} handler={} lat={lat_ms}ms user_layer={} via_peer={} stream_busy={stream_busy}]",
         opt(&unit["in_callee"]), opt(&unit["out_caller"]), opt(&unit["in_caller"]), opt(&unit["out_callee"]),
         if dur_ms == u64::MAX { "never".to_string() } else { format!("{dur_ms}ms") },
         unit["user_layer"], unit["via_peer"]
@@ -273,7 +294,10 @@ fn judge(unit: &Value, header: &str, dur_ms: u64, o: &Obs) -> Judged {
     }
     // serving side: the handler is cut off at its deadline and a shorter-running one completes
     let caller_gone_at = c.map(|c| c + l); // when the cancellation can reach the callee
-    let request_sure_to_arrive = c.map(|c| c > l + tol).unwrap_or(true);
+    let request_sure_to_arrive = !stream_busy && c.map(|c| c > l + tol).unwrap_or(true);
+    if stream_busy && o.starts != 0 {
+        v.push(("handler-starts".into(), format!("{ctx} the handler started although the callee had no free stream")));
+    }
     if request_sure_to_arrive {
         if o.starts != 1 {
             v.push(("handler-starts".into(), format!("{ctx} the handler was started {} times", o.starts)));
@@ -332,6 +356,11 @@ impl Check for C11 {
                         for (user_layer, via_peer) in [(false, false), (true, true)] {
                             let _ = tier;
                             u.push(json!({"in_callee":in_callee,"out_caller":out_caller,"in_caller":in_caller,"out_callee":out_callee,"lat_ms":lat,"user_layer":user_layer,"via_peer":via_peer}));
+                            // the same with the callee's only request stream occupied by an earlier call
+                            // (only where that earlier call is not itself cut off by a default)
+                            if out_caller.is_none() && in_callee.is_none() && in_caller.is_none() && out_callee.is_none() {
+                                u.push(json!({"in_callee":in_callee,"out_caller":out_caller,"in_caller":in_caller,"out_callee":out_callee,"lat_ms":lat,"user_layer":user_layer,"via_peer":via_peer,"stream_busy":true}));
+                            }
                         }
                     }
                 }
